@@ -110,6 +110,7 @@ func (w *wrapper) NewStream(ctx context.Context, desc *grpc.StreamDesc, method s
 	}
 
 	ctx, clientServerStream, ss, cs := w.startStream(ctx, method)
+	clientServerStream.singleResponse = !desc.ServerStreams
 	go func() {
 		err := matched.Handler(w.srv, ss)
 		clientServerStream.Close(err)
